@@ -454,7 +454,13 @@ func TestC02(t *testing.T) {
 		"2020-12-only keywords are never put into draft-07 documents; $id below an ignored sibling of $ref is not generated",
 		"unsupported $schema values are far from the supported spellings (other drafts, custom meta-schemas, garbage), so widening the accepted spellings raises no alarm",
 		"a loaded document declares no $schema or a draft-07 one (cross-draft referencing is outside the property)")
-	rapid.Check(t, func(t *rapid.T) {
+	rapid.Check(t, propC02(rec))
+}
+
+// propC02 is the property body, shared by TestC02 (rapid) and FuzzC02 (native fuzzing over
+// rapid's bit stream).
+func propC02(rec *ev.Recorder) func(t *rapid.T) {
+	return func(t *rapid.T) {
 		var c *c02Case
 		switch rapid.IntRange(0, 11).Draw(t, "family") {
 		case 10, 11:
@@ -496,7 +502,7 @@ func TestC02(t *testing.T) {
 			report(t, rec, c, fl)
 		}
 		rec.Case()
-	})
+	}
 }
 
 func init() {
